@@ -177,4 +177,10 @@ theorem C03_wiring2 :
     Sso.Generated.skel_proxy_upstreamTransport_RoundTrip =
       ["call:getTransport", "call:RoundTrip", "if{", "return", "}", "return"] := by decide
 
+/-- Tie (T1), third wave: the constructors and option functions that hand configured values to the components this property
+speaks about (proxy_SetUpstreamConfig). -/
+theorem C03_wiring3 :
+    Sso.Generated.skel_proxy_SetUpstreamConfig =
+      ["func{", "store:op.upstreamConfig", "return", "}", "return"] := by decide
+
 end Sso.Forward
